@@ -98,6 +98,7 @@ var extraAnchors = map[string][]string{
 	"C16": {"internal/tracer/http2.go", "internal/tracer/reader.go"},                                                                                                // the HTTP/2 retry collector completes traces towards the Tracer
 	"C02": {"internal/app/referenceclient/wire_details.go", "internal/app/referenceserver/raw_response.go"},                                                         // every streaming request reaches the reference server's handlers through firstReqCachingStream
 	"C12": {"internal/printer.go"},                                                                                                                                  // feedback lines that name the test case are written through safePrinter
+	"C14": {"internal/tracer/http2.go"},                                                                                                                             // the HTTP/2 connection tracer is the third producer of the same dataTracer events
 	"C13": {"internal/tracer/reader.go"},                                                                                                                            // the end-stream content the examiners see is assembled by dataTracer
 	"C04": {"internal/app/connectconformance/test_trie.go", "internal/printer.go", "internal/app/connectconformance/process.go"},                                    // the known-failing / known-flaky markings are trie matches; reference-peer feedback lines reach the runner through safePrinter
 	"C11": {"internal/delimited.go", "internal/app/connectconformance/client_runner.go"},                                                                            // the server's start-up response is read with ReadDelimitedMessage: garbage there must become a set-up error, not a crash
@@ -775,6 +776,9 @@ func crossPropertyRules(p *Prog, r *Report, propID string) {
 			extra(p, tmp)
 		}
 		for _, extra := range round9Rules[q] {
+			extra(p, tmp)
+		}
+		for _, extra := range round10Rules[q] {
 			extra(p, tmp)
 		}
 		for _, o := range tmp.Obls {
